@@ -202,7 +202,11 @@ func OpenFile(name string, flag int, perm FileMode) (*File, error) {
 		return nil, perr("open", name, syscall.ENOENT)
 	}
 	if w.Dirs[path] {
-		if flag&(O_WRONLY|O_RDWR) != 0 {
+		if flag&O_CREATE != 0 && flag&O_EXCL != 0 {
+			w.logOp(kind, path, 0, 0, "eexist")
+			return nil, perr("open", name, syscall.EEXIST)
+		}
+		if flag&(O_WRONLY|O_RDWR) != 0 || flag&O_CREATE != 0 {
 			w.logOp(kind, path, 0, 0, "eisdir")
 			return nil, perr("open", name, syscall.EISDIR)
 		}
@@ -252,6 +256,20 @@ func (w *World) install(f *File) {
 	w.P.fds[f.fd] = f
 }
 
+// missing says why a path that is neither a file nor a directory cannot be
+// found: a regular file in the way gives ENOTDIR.
+func (w *World) missing(path string) syscall.Errno {
+	for cur := parent(path); ; cur = parent(cur) {
+		if _, isFile := w.Files[cur]; isFile {
+			return syscall.ENOTDIR
+		}
+		if cur == "/" {
+			break
+		}
+	}
+	return syscall.ENOENT
+}
+
 func (w *World) checkParents(path string) syscall.Errno {
 	d := parent(path)
 	for cur := d; ; cur = parent(cur) {
@@ -294,8 +312,9 @@ func Remove(name string) error {
 		w.logOp("remove", path, 0, 0, "ok")
 		return nil
 	}
-	w.logOp("remove", path, 0, 0, "enoent")
-	return perr("remove", name, syscall.ENOENT)
+	e := w.missing(path)
+	w.logOp("remove", path, 0, 0, e.Error())
+	return perr("remove", name, e)
 }
 
 // RemoveAll removes path and everything beneath it.
@@ -304,6 +323,10 @@ func RemoveAll(name string) error {
 	path := clean(name)
 	if err := w.simple("removeall", path); err != nil {
 		return perr("unlinkat", name, err)
+	}
+	if _, isFile := w.Files[path]; !isFile && !w.Dirs[path] && w.missing(path) == syscall.ENOTDIR {
+		w.logOp("removeall", path, 0, 0, "enotdir")
+		return perr("unlinkat", name, syscall.ENOTDIR)
 	}
 	for _, p := range w.List(path) {
 		w.Files[p].Nlink--
@@ -389,9 +412,17 @@ func Rename(oldname, newname string) error {
 		w.logOp("rename", op, 0, 0, "enoent")
 		return &realos.LinkError{Op: "rename", Old: oldname, New: newname, Err: syscall.ENOENT}
 	}
+	if w.Dirs[np] {
+		w.logOp("rename", op, 0, 0, "eexist")
+		return &realos.LinkError{Op: "rename", Old: oldname, New: newname, Err: syscall.EEXIST}
+	}
 	if e := w.checkParents(np); e != 0 {
 		w.logOp("rename", op, 0, 0, e.Error())
 		return &realos.LinkError{Op: "rename", Old: oldname, New: newname, Err: e}
+	}
+	if op == np {
+		w.logOp("rename", op, 0, 0, "same")
+		return nil
 	}
 	if old, ok := w.Files[np]; ok {
 		old.Nlink--
@@ -422,8 +453,9 @@ func Stat(name string) (FileInfo, error) {
 		w.logOp("stat", path, 0, 0, "dir")
 		return &fileInfo{base(path), 4096, fs.ModeDir | 0755}, nil
 	}
-	w.logOp("stat", path, 0, 0, "enoent")
-	return nil, perr("stat", name, syscall.ENOENT)
+	e := w.missing(path)
+	w.logOp("stat", path, 0, 0, e.Error())
+	return nil, perr("stat", name, e)
 }
 
 // Lstat is Stat: there are no symbolic links on the simulated disk.
